@@ -188,6 +188,56 @@ func poolStress(args []string) int {
 		_ = enc.Encode(core.Ev{"op": "final", "finished": finished})
 		lg.mu.Unlock()
 	}
+	// a watcher of the queue size (Queue.WaitSizeIsAbove) waits on the same stack as the dispatcher and started waiting first;
+	// a task is submitted to the idle pool: it has to be run promptly, not only when the next Submit or the Shutdown comes
+	for tr := 0; tr < 2; tr++ {
+		lg := &plog{}
+		p := hive.New("watched", hive.WithWorkerCount(1+tr), hive.WithCancelPendingTasksOnShutdown(tr == 1))
+		var incs atomic.Int64
+		p.PendingTasksCounter.Subscribe(func(o, n int) {
+			if n > o {
+				incs.Add(1)
+			}
+		})
+		go p.Queue.WaitSizeIsAbove(100) // (never satisfied; released by nothing - the goroutine is abandoned with the pool)
+		time.Sleep(30 * time.Millisecond)
+		p.Start()
+		time.Sleep(30 * time.Millisecond)
+		done := make(chan struct{})
+		go func() {
+			defer close(done)
+			ran := make(chan struct{})
+			lg.add(core.Ev{"op": "begin", "k": 1})
+			before := incs.Load()
+			p.Submit(func() { lg.add(core.Ev{"op": "run", "k": 1}); close(ran) })
+			lg.add(core.Ev{"op": "end", "k": 1, "acc": incs.Load() > before})
+			select {
+			case <-ran:
+			case <-time.After(2 * time.Second):
+			}
+			lg.add(core.Ev{"op": "settled"})
+			p.Shutdown()
+			p.ShutdownComplete.Wait()
+			lg.add(core.Ev{"op": "complete", "pending": p.PendingTasksCounter.Get()})
+		}()
+		finished := true
+		select {
+		case <-done:
+		case <-time.After(8 * time.Second):
+			finished = false
+			hangs++
+		}
+		lg.mu.Lock()
+		_ = enc.Encode(core.Ev{"op": "reset", "cfg": core.Ev{"workers": 1 + tr, "cancel": tr == 1}})
+		for _, e := range lg.evs {
+			_ = enc.Encode(e)
+		}
+		if !finished {
+			_ = enc.Encode(core.Ev{"op": "complete", "pending": 0})
+		}
+		_ = enc.Encode(core.Ev{"op": "final", "finished": finished})
+		lg.mu.Unlock()
+	}
 	// restart while the previous run is still draining: the only worker is busy and more tasks are queued when Shutdown and
 	// then Start are called (Start has to wait for the previous run to complete); the busy task is released; Start returns;
 	// one more task; Shutdown and wait.  Every accepted task runs, everything returns.
